@@ -64,7 +64,7 @@ _add(PropertySpec(
               "impossibility lemma by induction), VCs discharged by z3/cvc5; bounded stand-in (permutation filtering) for the all-orderings routine",
     assumptions=["ghost counting function rem(graph, D, v) = |{u in graph, u not in D : v in graph[u]}|: four first-order facts ASSUMED (non-negative; zero iff every predecessor is in D; "
                  "one more vertex in D lowers it by one exactly for its successors) - cardinalities are not definable in the SMT theories used; evaluated on all small digraphs by the stand-in `toposort:counting-axioms`",
-                 "len(dict) is an uninterpreted function of the key set; two pigeonhole lemmas ASSUMED (a duplicate-free key sequence of that length contains every key, and conversely)",
+                 "len(dict) is an uninterpreted function of the key set; three pigeonhole lemmas ASSUMED (a duplicate-free key sequence is not longer than the dict; one of that length contains every key, and conversely)",
                  "collections.deque modelled as a sequence: deque(dict) = the keys once each; popleft / append / remove(first occurrence) stated element-wise, with their membership-level consequences",
                  "successors are vertices (keys of the dict) - precondition; otherwise toposort raises KeyError"],
     not_decided=["toposort_all / _toposort_all_bt (each ordering exactly once): NOT discharged - the backtracking routine shares and restores the in-degree map across recursive calls and returns lists it "
